@@ -25,6 +25,7 @@ def degree(mesh : Mesh, name : str = "degree", persistent:bool = True, dense:boo
         deg = mesh.vertices.create_attribute(name, int, dense=dense)
     else:
         deg = ArrayAttribute(int, len(mesh.vertices)) if dense else Attribute(int)
+    deg.clear() # start from zero even when create_attribute handed back an existing attribute of that name
     for (a,b) in mesh.edges:
         deg[a] = deg[a] + 1
         deg[b] = deg[b] + 1
@@ -60,6 +61,7 @@ def angle_defects(mesh : SurfaceMesh, zero_border=False, name = "angleDefect", p
         defects = mesh.vertices.create_attribute(name, float, dense=dense, default_value=2*pi)
     else:
         defects = ArrayAttribute(float, len(mesh.vertices), default_value=2*pi) if dense else Attribute(float, default_value=2*pi)
+    defects.clear() # back to the default value (2*pi) even when create_attribute handed back an existing attribute of that name
     
     for i in mesh.boundary_vertices:
         defects[i] = 0 if zero_border else pi
